@@ -54,7 +54,7 @@ package pod
   ensures (= result (nodeAccept {f} {obj}))
 @*/
 /*@ func (types/pod.nodeFilter).Equals
-  props C17
+  props C17 C07 C06
   theory podfilters
   implements filter.ComparableFilter.Equals
   requires [recv] (not (= {f} vnil))
